@@ -517,9 +517,15 @@ def transfer_invariants(chk, c, name):
     reach_ok = False
     seen = set()
     work = [e for e in g.start_edges]
+    # edges that some abstract reply can actually take (the others are infeasible combinations of tests)
+    feasible = set(id(e) for e in g.start_edges)
+    for k in g.order:
+        for rname, reply in c.alphabet:
+            for e, env in c.successors(k, rname, reply):
+                feasible.add(id(e))
     while work:
         e = work.pop()
-        if id(e) in succ_edges:
+        if id(e) in succ_edges or id(e) not in feasible:
             continue
         if e.dst is None:
             if e.outcome == "return" and c.outcome_sig(e)[0] == "ok":
